@@ -37,9 +37,24 @@ pub const CONTROLS: [Control; 24] = [
     Control::MachineTravelAlarm(true), Control::MachineTravelAlarm(false),
 ];
 
+/// `<code>:<value>` written out from the enum (NOT through the encoder under test); the argument-less controls carry 1.
 pub fn control_tok(c: &Control) -> String {
-    let b = c.to_bytes();
-    format!("{}:{}", b[0], b[1])
+    let (code, on): (u8, bool) = match c {
+        Control::HydraulicQuickDisconnect(on) => (0x05, *on),
+        Control::HydraulicLock(on) => (0x06, *on),
+        Control::HydraulicBoost(on) => (0x07, *on),
+        Control::HydraulicBoomConflux(on) => (0x08, *on),
+        Control::HydraulicArmConflux(on) => (0x09, *on),
+        Control::HydraulicBoomFloat(on) => (0x0A, *on),
+        Control::HydraulicReset => (0x0B, true),
+        Control::MachineShutdown => (0x1B, true),
+        Control::MachineIllumination(on) => (0x1C, *on),
+        Control::MachineLights(on) => (0x2D, *on),
+        Control::MachineHorn(on) => (0x1E, *on),
+        Control::MachineStrobeLight(on) => (0x1F, *on),
+        Control::MachineTravelAlarm(on) => (0x20, *on),
+    };
+    format!("{}:{}", code, on as u8)
 }
 
 pub fn status_tok(s: &ModuleStatus) -> String {
@@ -158,6 +173,12 @@ pub fn dec_short(kind: &str, size: usize, stream: &[u8]) -> String {
         "actor" => recv_short::<Actor>(size, stream),
         _ => unreachable!(),
     }
+}
+
+/// A decoder call made by the generator itself: a panic counts as "no value" (the round trip then fails visibly)
+/// instead of killing the harness.
+fn pg<T>(f: impl FnOnce() -> Option<T>) -> Option<T> {
+    guarded(std::panic::AssertUnwindSafe(f)).flatten()
 }
 
 fn dec_out<P: Packetize>(size: usize, stream: &[u8], tok: impl Fn(&P, &[u8]) -> String) -> String {
@@ -301,19 +322,19 @@ pub fn run(out: &mut Out, tier: &str, rng: &mut Rng) {
     // ------------------------------------------------------------------ enc
     for c in CONTROLS {
         let b = send(&c);
-        let back = Control::try_from(c.to_bytes()).ok();
+        let back = pg(|| Control::try_from(c.to_bytes()).ok());
         enc_case(out, "control", &control_tok(&c), &b, back == Some(c));
     }
     for e in [SessionError::UnknownRequest, SessionError::UnknownMessage, SessionError::UnauthorizedControl, SessionError::UnauthorizedCommand] {
         let code = e.to_bytes()[0];
         let b = send(&e);
-        let back = SessionError::try_from(e.to_bytes()).map(|x| x.to_bytes()[0]).ok();
+        let back = pg(|| SessionError::try_from(e.to_bytes()).map(|x| x.to_bytes()[0]).ok());
         enc_case(out, "sessionError", &code.to_string(), &b, back == Some(code));
     }
     for m in 0..=255u8 {
         let r = Request::new(m);
         let b = send(&r);
-        let back = Request::try_from(r.to_bytes()).map(|x| x.message()).ok();
+        let back = pg(|| Request::try_from(r.to_bytes()).map(|x| x.message()).ok());
         enc_case(out, "request", &m.to_string(), &b, back == Some(m));
     }
     for st in [EngineState::NoRequest, EngineState::Starting, EngineState::Stopping, EngineState::Request] {
@@ -325,20 +346,20 @@ pub fn run(out: &mut Out, tier: &str, rng: &mut Rng) {
                 state: st,
             };
             let b = send(&e);
-            enc_case(out, "engine", &engine_tok(&e), &b, Engine::try_from(e.to_bytes()).ok() == Some(e));
+            enc_case(out, "engine", &engine_tok(&e), &b, pg(|| Engine::try_from(e.to_bytes()).ok()) == Some(e));
         }
     }
     for i in 0..n {
         let m = if i == 0 { Motion::Change(vec![]) } else if i == 1 { (0..32).map(|_| (*rng.pick(&fmt::ACTUATORS), fmt::rand_i16(rng))).collect::<Motion>() } else { fmt::rand_motion(rng) };
         let b = send(&m);
-        enc_case(out, "motion", &fmt::motion(&m), &b, Motion::try_from(m.to_bytes()).ok() == Some(m.clone()));
+        enc_case(out, "motion", &fmt::motion(&m), &b, pg(|| Motion::try_from(m.to_bytes()).ok()) == Some(m.clone()));
     }
     for i in 0..n {
         let flags = if i < 32 { i as u8 } else if rng.chance(1, 8) { rng.byte() } else { (rng.below(32)) as u8 };
         let name = if i % 7 == 0 { rand_name(rng, 255) } else { rand_name(rng, 64) };
         let s = Session::new(flags, name.clone());
         let b = send(&s);
-        let back = Session::try_from(s.to_bytes()).ok();
+        let back = pg(|| Session::try_from(s.to_bytes()).ok());
         let ok = back.map(|x| x.to_bytes() == s.to_bytes()).unwrap_or(false);
         // the object as the client built it: flags + the (already truncated) name
         enc_case(out, "session", &format!("{}:{}", flags, hex(s.name().as_bytes())), &b, ok);
@@ -352,12 +373,12 @@ pub fn run(out: &mut Out, tier: &str, rng: &mut Rng) {
         // constraint enum is private to core::target; reach every value through the decoder
         let mut raw = t.to_bytes();
         raw[24] = *rng.pick(&constraints);
-        if let Ok(t2) = Target::try_from(raw.clone()) {
+        if let Some(t2) = pg(|| Target::try_from(raw.clone()).ok()) {
             t = t2;
         }
         let (er, ep, ey) = t.orientation.euler_angles();
         let b = send(&t);
-        let back = Target::try_from(t.to_bytes()).ok();
+        let back = pg(|| Target::try_from(t.to_bytes()).ok());
         let ok = back.map(|u| u.point.iter().zip(t.point.iter()).all(|(a, b)| a.to_bits() == b.to_bits()) && u.constraint == t.constraint && u.orientation.coords.iter().zip(t.orientation.coords.iter()).all(|(a, b)| approx(*a, *b) || approx(*a, -*b))).unwrap_or(false);
         enc_case(out, "target", &format!("{}:{}:{}:{}:{}:{}:{}", f32bits(t.point.x), f32bits(t.point.y), f32bits(t.point.z), f32bits(er), f32bits(ep), f32bits(ey), t.constraint as u8), &b, ok);
     }
@@ -366,7 +387,7 @@ pub fn run(out: &mut Out, tier: &str, rng: &mut Rng) {
         let r = if rng.chance(1, 2) { Rotator::absolute(rng.byte(), rot) } else { Rotator::relative(rng.byte(), rot) };
         let (er, ep, ey) = r.rotator.euler_angles();
         let b = send(&r);
-        let back = Rotator::try_from(r.to_bytes()).ok();
+        let back = pg(|| Rotator::try_from(r.to_bytes()).ok());
         let ok = back.map(|u| u.source == r.source && u.reference == r.reference && rot_approx(&u.rotator, &r.rotator)).unwrap_or(false);
         enc_case(out, "rotator", &format!("{}:{}:{}:{}:{}", r.source, f32bits(er), f32bits(ep), f32bits(ey), r.reference as u8), &b, ok);
     }
@@ -374,7 +395,7 @@ pub fn run(out: &mut Out, tier: &str, rng: &mut Rng) {
     for _ in 0..n {
         let s = ModuleStatus { name: rand_name(rng, 255), state: *rng.pick(&[ModuleState::Healthy, ModuleState::Degraded, ModuleState::Faulty, ModuleState::Emergency]), error: *rng.pick(&merrs) };
         let b = send(&s);
-        let ok = ModuleStatus::try_from(s.to_bytes()).ok() == Some(s.clone());
+        let ok = pg(|| ModuleStatus::try_from(s.to_bytes()).ok()) == Some(s.clone());
         let e = match s.error { None => "n".to_string(), Some(e) => merrs.iter().position(|x| *x == Some(e)).map(|i| (i - 1).to_string()).unwrap() };
         enc_case(out, "status", &format!("{}:{}:{}", hex(s.name.as_bytes()), s.state as u8, e), &b, ok);
     }
@@ -384,13 +405,13 @@ pub fn run(out: &mut Out, tier: &str, rng: &mut Rng) {
         let ty = *rng.pick(&[MachineType::Excavator, MachineType::WheelLoader, MachineType::Dozer, MachineType::Grader, MachineType::Hauler, MachineType::Forestry]);
         let i = Instance::new(idstr, rand_name(rng, 255), ty, (rng.byte(), rng.byte(), rng.byte()), rand_name(rng, 255));
         let b = send(&i);
-        let ok = Instance::try_from(i.to_bytes()).ok() == Some(i.clone());
+        let ok = pg(|| Instance::try_from(i.to_bytes()).ok()) == Some(i.clone());
         enc_case(out, "instance", &format!("{}:{}:{}:{}:{}:{}:{}", hex(&id), ty as u8, i.version().0, i.version().1, i.version().2, hex(i.model().as_bytes()), hex(i.serial_number().as_bytes())), &b, ok);
     }
     for _ in 0..n {
         let g = Gnss { location: (rand_f32(rng), rand_f32(rng)), altitude: rand_f32(rng), speed: rand_f32(rng), heading: rand_f32(rng), satellites: rng.byte(), status: *rng.pick(&[GnssStatus::Disabled, GnssStatus::DeviceNotFound, GnssStatus::LocationFix]) };
         let b = send(&g);
-        let ok = Gnss::try_from(g.to_bytes()).map(|u| u.to_bytes() == g.to_bytes()).unwrap_or(false);
+        let ok = pg(|| Gnss::try_from(g.to_bytes()).ok()).map(|u| u.to_bytes() == g.to_bytes()).unwrap_or(false);
         enc_case(out, "gnss", &format!("{}:{}:{}:{}:{}:{}:{}", f32bits(g.location.0), f32bits(g.location.1), f32bits(g.altitude), f32bits(g.speed), f32bits(g.heading), g.satellites, g.status as u8), &b, ok);
     }
     {
@@ -405,7 +426,7 @@ pub fn run(out: &mut Out, tier: &str, rng: &mut Rng) {
         }
         let a = ab.build();
         let b = send(&a);
-        enc_case(out, "actor", &format!("{}:4:{}", hex(a.name().as_bytes()), toks.join(";")), &b, Actor::try_from(a.to_bytes()).is_ok());
+        enc_case(out, "actor", &format!("{}:4:{}", hex(a.name().as_bytes()), toks.join(";")), &b, pg(|| Actor::try_from(a.to_bytes()).ok()).is_some());
     }
     for i in 0..n {
         let nseg = if i == 0 { 0 } else { 1 + rng.below(6) as usize };
